@@ -92,15 +92,15 @@ const (
 	preBr2   // two line breaks and a space
 	// excursions that temporarily switch the frame's file or offset and are LEFT BY AN
 	// EXCEPTION which is caught before the site: the frame must be itself again
-	preThrowEval      // direct eval whose code throws at run time, caught in the same function
-	preThrowEvalL     // the same with a long multi-line eval source
-	preThrowEvalCall  // direct eval whose code calls a function that throws
-	preThrowIndirect  // indirect eval whose code throws
-	preThrowFunction  // Function-constructor code that throws
-	preThrowGetter    // accessor (implicit call) that throws
-	preThrowHost      // a Go host function runs a nested script that throws and re-panics the error
-	preThrowCallee    // the direct eval is in a callee which does not catch; caught here (caller)
-	preThrowCallee2   // ... caught by the caller's caller
+	preThrowEval     // direct eval whose code throws at run time, caught in the same function
+	preThrowEvalL    // the same with a long multi-line eval source
+	preThrowEvalCall // direct eval whose code calls a function that throws
+	preThrowIndirect // indirect eval whose code throws
+	preThrowFunction // Function-constructor code that throws
+	preThrowGetter   // accessor (implicit call) that throws
+	preThrowHost     // a Go host function runs a nested script that throws and re-panics the error
+	preThrowCallee   // the direct eval is in a callee which does not catch; caught here (caller)
+	preThrowCallee2  // ... caught by the caller's caller
 	nPre
 )
 
@@ -461,6 +461,16 @@ func (g *gen) preThrow(w *tbuf, fr *frame, p preKind) {
 
 func (g *gen) usesThrowHelpers() bool { return g.lay.pre.isThrow() || g.lay.rotate }
 
+// header writes the global helpers at the start of the entry script; the one
+// helper definition that is itself a call site (new Function) is recorded in
+// the program's frame.
+func (g *gen) header(w *tbuf, top *frame) {
+	o := w.put("function nop(){}" + g.argHelpers() + g.preHelpers())
+	if i := strings.Index(w.sb.String()[o:], "new Function("); i >= 0 {
+		top.events = append(top.events, event{kind: evRef, off: o + i + 4})
+	}
+}
+
 // preHelpers renders the global helpers the preceding material needs.
 func (g *gen) preHelpers() string {
 	h := ""
@@ -479,11 +489,12 @@ func (g *gen) usesEvalLong() bool {
 func (g *gen) build() string {
 	g.top = &gfile{name: g.fname}
 	w := &tbuf{f: g.top}
-	w.put("function nop(){}" + g.argHelpers() + g.preHelpers() + g.sep())
+	top := g.push("", g.top)
+	g.header(w, top)
+	w.put(g.sep())
 	if g.usesEvalLong() {
 		w.put(g.sep() + "var EV = " + ox.JSLit(evalLongSrc) + ";")
 	}
-	top := g.push("", g.top)
 	g.level(w, top, 0)
 	w.close()
 	return g.top.src
@@ -762,7 +773,8 @@ func (g *gen) buildFiles() []script {
 	top := g.push("", files[0])
 	prev := top
 	// entry script (run last)
-	bufs[0].put("function nop(){}" + g.argHelpers() + g.preHelpers() + g.sep())
+	g.header(bufs[0], top)
+	bufs[0].put(g.sep())
 	if g.usesEvalLong() {
 		bufs[0].put("var EV = " + ox.JSLit(evalLongSrc) + ";" + g.sep())
 	}
